@@ -106,7 +106,16 @@ func isValidBranchName(branchName string) bool {
 	if branchName == "" || branchName == "." || branchName == ".." {
 		return false
 	}
-	return !strings.ContainsAny(branchName, `/\`)
+	if strings.ContainsAny(branchName, `/\`) {
+		return false
+	}
+	// HEAD, the branch listing and the reflog hold one name per line: no line breaks or other control characters
+	for i := 0; i < len(branchName); i++ {
+		if branchName[i] < 0x20 || branchName[i] == 0x7f {
+			return false
+		}
+	}
+	return true
 }
 
 func (r *Refs) AddBranch(rootGoitPath, newBranchName string, newBranchHash sha.SHA1) error {
